@@ -49,6 +49,19 @@ register(fn_contract(
 SMUL = f"{EC}.point_scalar_mul@C03.point_scalar_mul.assumed"
 PADD = f"{EC}.point_add@C03.point_add.assumed"
 
+def _sign_cases(rng):
+    """keys, digests and scripted nonce draws incl. 0, 1, n-1 and the draw that makes the first candidate s == 0"""
+    import spec
+    ec = spec.ec
+    d = rng.choice([1, 2, ec.N - 1, rng.randrange(1, ec.N)])
+    k = rng.choice([1, 2, ec.N - 1, rng.randrange(1, ec.N)])
+    z = rng.choice([0, 1, ec.N - 1, ec.N, ec.N + 1, 2**256 - 1, rng.getrandbits(256)])
+    if rng.random() < 0.4:
+        r = ec.ec_mul(k, ec.G)[0] % ec.N
+        z = (-r * d) % ec.N + rng.choice([0, ec.N])          # s == 0 for this nonce
+    return {"key": d, "digest": z, "draws": [rng.choice([0, k]), k, rng.randrange(1, ec.N), 1]}
+
+
 # ---- ecmath.sign: range, low-S, nonce discipline -- for every key, digest and every sequence of RNG draws
 SIGN_OUTER = Loop(invariant=["0 <= r < N", "0 <= s <= N // 2"], types={})
 SIGN_INNER = Loop(invariant=["0 <= k < N"], types={})
@@ -60,7 +73,7 @@ register(fn_contract(
     modular=[SMUL], returns=("tuple", ["int", "int"]),
     options={"fixed_args": {"N": 0xFFFFFFFFFFFFFFFFFFFFFFFFFFFFFFFEBAAEDCE6AF48A03BBFD25E8CD0364141, "G": (0x79BE667EF9DCBBAC55A06295CE870B07029BFCDB2DCE28D959F2815B16F81798, 0x483ADA7726A3C4655DA4FBFC0E1108A8FD17B448A68554199C47D08FFB10D4B8)},
              "assumptions": ["A-rng (pyvc/ghosts.py)", "A-order: k*G != O for 1 <= k < n (the order of G is n); without it sign's tuple unpacking could raise TypeError"],
-             "bounded_skip_native": True, "nla": False},
+             "native_body": "spec.ec.sign_with_draws(key, digest, draws)", "native_gen": _sign_cases, "nla": False},
 ))
 
 
@@ -71,6 +84,13 @@ def _valid_sigs(rng):
     d = rng.choice([1, 2, ec.N - 1, rng.randrange(1, ec.N)])
     k = rng.choice([1, 2, ec.N - 1, rng.randrange(1, ec.N)])
     z = rng.choice([0, 1, ec.N - 1, ec.N, ec.N + 1, 2**256 - 1, rng.getrandbits(256)])
+    if rng.random() < 0.15:
+        # crafted: u1*G + u2*Q is the point at infinity (d = -z/r), any s
+        r = rng.randrange(1, ec.N)
+        d = (-(z % ec.N) * pow(r, -1, ec.N)) % ec.N
+        if d == 0:
+            return _valid_sigs(rng)
+        return {"r": r, "s": rng.choice([1, ec.N - 1, rng.randrange(1, ec.N)]), "point": ec.ec_mul(d, ec.G), "digest": z}
     R = ec.ec_mul(k, ec.G)
     r = R[0] % ec.N
     s = (z + r * d) * pow(k, -1, ec.N) % ec.N
@@ -175,7 +195,7 @@ register(Theorem(
 register(Theorem(
     "C02.ensure_sig_low_s", ["C02"], params={"r": "int", "s": "int"}, requires=[f"1 <= r < {N}", f"1 <= s < {N}"],
     body="bits.utils.ensure_sig_low_s(spec.der.der_sig(r, s))",
-    cases=[Case("ok", ensures={"low_s_strict_der": f"result == spec.der.der_sig(r, s if s <= {N} // 2 else {N} - s)"})],
+    cases=[Case("ok", ensures={"low_s_strict_der": f"result == spec.der.der_sig(r, s if s <= {N} // 2 else ({N} - s) % {N})"})],
     fuc=["bits.utils.ensure_sig_low_s"], options={"nla": False, "feas_ms": 300},
     witnesses=[{"r": 5, "s": 7}, {"r": 5, "s": 0xFFFFFFFFFFFFFFFFFFFFFFFFFFFFFFFEBAAEDCE6AF48A03BBFD25E8CD0364141 - 0x1234},
                {"r": 2**255, "s": 0xFFFFFFFFFFFFFFFFFFFFFFFFFFFFFFFEBAAEDCE6AF48A03BBFD25E8CD0364141 - 1}],
